@@ -226,10 +226,13 @@ DropOnlyBad ==
                    /\ why = (IF stream[nd + 1].sz < MINSZ THEN "short" ELSE "oversize")
 (* when every byte has been read and the loop waits for more, every message has been delivered once *)
 Complete == (pc = "read" /\ off = Total) => (FirstBad = 0 /\ nd = NMsgs /\ pos = 0)
+(* the loop never waits for more bytes while a whole legal frame sits in the buffer (a request is
+   executed as soon as its last byte has arrived, not when later bytes arrive) *)
+Prompt == (pc = "read" /\ nd < NMsgs /\ (FirstBad = 0 \/ nd + 1 < FirstBad)) => pos < stream[nd + 1].len
 (* sanity of the client gating *)
 GateLive == (pc = "read" /\ Avail = 0 /\ off < Total) => (~Server /\ NextVer # 0 /\ NextVer <= nd)
 
-Inv == DeliveredPrefix /\ NoZeroRead /\ PosWithinCap /\ NoClobber /\ BufferHoldsNext /\ DropOnlyBad /\ Complete /\ GateLive
+Inv == DeliveredPrefix /\ NoZeroRead /\ PosWithinCap /\ NoClobber /\ BufferHoldsNext /\ DropOnlyBad /\ Complete /\ Prompt /\ GateLive
 
 (* observation-only summary used by the harness: the spec's prediction for a stream *)
 Predicted == IF FirstBad = 0 THEN NMsgs ELSE FirstBad - 1
